@@ -34,7 +34,7 @@ func c02Corpus(env run.Env) corpus {
 	if env.Thorough {
 		return newCorpus("C02", wfDomain, 240, 12000000)
 	}
-	return newCorpus("C02", wfDomain, 6, 20000)
+	return newCorpus("C02", wfDomain, 24, 20000)
 }
 
 func (c02) Phases(env run.Env) []run.Phase {
